@@ -156,7 +156,8 @@ theorem inv_mutEv (h : Heap) (hinv : Inv h) (i : Nat) (hi : i < h.size) (hl : li
                 · exact ⟨hinv.ordered i x hx, hinv.kidsAlive i x hl hx⟩
                 · cases hk'; exact hj'
               · simp only [applyEff, Option.some.injEq] at hae; subst hae
-                simp
+                simp only [ne_eq, List.map_eq_nil_iff]
+                exact setKid_ne_nil _ _ _
           · have hj' : (decide (j < i) && live h j) = false := by simpa using hj
             simp only [hj']; exact hinv
         | addLeaf k o =>
